@@ -17,6 +17,7 @@ import (
 	"verifharness/fmtcheck"
 	"verifharness/l1"
 	"verifharness/l2"
+	"verifharness/srcscan"
 	"verifharness/walk"
 )
 
@@ -282,6 +283,17 @@ func main() {
 			os.Exit(2)
 		}
 		bz, _ := json.Marshal(st)
+		fmt.Println(string(bz))
+	case "src-scan":
+		fs, err := srcscan.Scan(*file)
+		if err != nil {
+			fmt.Fprintln(os.Stderr, err)
+			os.Exit(2)
+		}
+		if fs == nil {
+			fs = []srcscan.Finding{}
+		}
+		bz, _ := json.Marshal(fs)
 		fmt.Println(string(bz))
 	case "oracle-drive":
 		fh, err := os.Create(*out)
